@@ -275,6 +275,26 @@ unlinking from link lists included) -/
 theorem delete_key_forms_agree {g : Graph} {c : Cont} {key : Key} {e : String × Nat}
     (hget : contGet g c key = .ok e) : contDel g c key = contDel g c (.ent e.2) := contDel_key_eq_ent hget
 
+/-- **views agree, link lists** — for every link list (group.data_arrays / data_frames / tags / multi_tags / sources,
+tag / multi-tag references, array / tag / multi-tag sources) of every reachable graph and every position `j`:
+positional indexing, lookup and membership by the id (the link's name), membership by entity object address the `j`-th
+entry of the append-ordered list; lookup and membership by the target's name do so when no other target of the list
+carries that name (sources of different parents may) and the name is not the id of a linked entity -/
+theorem views_agree_link_reachable {g : Graph} (hg : ReachableFreshX g) {p : Path} {cn : String} {c : Cont}
+    (hc : openCont g p cn = some c) (hfl : c.info.flavour = .link ∨ c.info.flavour = .sourceLink)
+    (j : Nat) (hj : j < contLen g c) :
+    contGet g c (.pos j) = .ok ((contEntries g c)[j]'hj) ∧
+    g.entityId ((contEntries g c)[j]'hj).2 = some ((contEntries g c)[j]'hj).1 ∧
+    isUuid ((contEntries g c)[j]'hj).1 = true ∧
+    contGet g c (.str ((contEntries g c)[j]'hj).1) = .ok ((contEntries g c)[j]'hj) ∧
+    contHas g c (.str ((contEntries g c)[j]'hj).1) = .ok true ∧
+    contHas g c (.ent ((contEntries g c)[j]'hj).2) = .ok true ∧
+    (∀ nm, g.getAttr ((contEntries g c)[j]'hj).2 "name" = some nm →
+      (∀ l ∈ contEntries g c, g.getAttr l.2 "name" = some nm → l = (contEntries g c)[j]'hj) →
+      (isUuid nm = true → getByName g c.node nm = none) →
+      contGet g c (.str nm) = .ok ((contEntries g c)[j]'hj) ∧ contHas g c (.str nm) = .ok true) :=
+  hg.wf.views_agree_link (hg.wf.entries_ok hc) hfl j hj
+
 /-- **link lists: append** — a successful `append` leaves the list as the old entries without
 the appended entity, followed by it (so a first append puts it last and a re-append moves it to
 the end); entries of link lists are named by the id of their target -/
@@ -832,6 +852,9 @@ example : ((resolve demoL rootLoc [.name "data", .name "b", .name "groups", .nam
 example : ((openCont demo [] "data").bind fun c =>
       (Gen.containerGetitem.evalGet demo c (.str "0f0f0f0f0f0f0f0f0f0f0f0f0f0f0f0f")).map fun r => r.toOption.map (·.1)) =
     some (some "0f0f0f0f0f0f0f0f0f0f0f0f0f0f0f0f") := by decide +kernel
+
+example : ∃ c, openCont demoL [.name "data", .name "b", .name "groups", .name "g"] "data_arrays" = some c ∧
+    c.info.flavour = .link ∧ contLen demoL c = 1 := by decide +kernel
 
 example : WF demo := reachable_wf demo_reachable
 example : ∃ c, openCont demo [] "data" = some c ∧ hasSlash "new" = false ∧
